@@ -8,7 +8,6 @@ VIEW View
 INVARIANT TypeOK
 INVARIANT NoCounterWithoutRule
 INVARIANT ScanIsLowestMatch
-INVARIANT ScanVerdictIsVerdict
 INVARIANT DeciderIsLowestMatch
 PROPERTY AddProp
 CHECK_DEADLOCK FALSE
